@@ -82,6 +82,23 @@ func nonneg(n int) int {
 // drawLen draws a length relative to the buffer state: the boundary values
 // around Available() and Size(), 2*Size()+3, small values, or a random one.
 func drawLen(t *rapid.T, label string, v View, o Opts) int {
+	return capLen(drawLen0(t, label, v, o), v)
+}
+
+// capLen keeps buffer-relative sizes from compounding: with flushing disabled
+// (or Grow) the buffer grows with every oversized write, and sizes drawn
+// relative to it would grow exponentially over a history.
+func capLen(n int, v View) int {
+	if v.Size > 200000 && n > 600 {
+		return 600
+	}
+	if n > 140000 {
+		return 140000
+	}
+	return n
+}
+
+func drawLen0(t *rapid.T, label string, v View, o Opts) int {
 	max := o.MaxLen
 	if max == 0 {
 		max = 600
@@ -142,6 +159,7 @@ func DrawThrough(t *rapid.T, v View, pos int, o Opts) Action {
 	default:
 		a.Len = rapid.IntRange(0, 300).Draw(t, "through.rnd")
 	}
+	a.Len = capLen(a.Len, v)
 	return a
 }
 
@@ -199,6 +217,7 @@ func DrawGrow(t *rapid.T, v View) Action {
 	default:
 		a.N = rapid.IntRange(0, 2000).Draw(t, "grow.rnd")
 	}
+	a.N = capLen(a.N, v)
 	return a
 }
 
